@@ -13,7 +13,8 @@ try:
 except Exception as e:
     meta = {"note": "agent meta.json unreadable: %s" % e}
 log = ""
-for lf in ("/tmp/confirm1.log", "/tmp/confirm2.log", "/tmp/confirm3.log", "/tmp/confirm4.log", "/tmp/confirm5.log", "/tmp/confirm6.log"):
+import glob
+for lf in sorted(glob.glob("/tmp/confirm*.log")):
     if os.path.exists(lf):
         txt = open(lf).read()
         key = "== " + os.path.basename(wt).replace("seed-", "")
@@ -29,7 +30,7 @@ out = {
     "agent_results": meta.get("results"),
     "confirmed_by_me": {"command": "tools/confirm_seed.sh <worktree> (suite with patch; demo with patch; demo without patch)", "output": log},
     "checks": {"caught_by": caught.split(","), "first_run": initially, "note": note,
-               "how_to_rerun": "tools/try_seed.sh seeded/%s-%s/patch.diff %s" % (prop, name, prop)},
+               "how_to_rerun": "tools/try_patch.sh /verif/seeded/%s-%s/patch.diff %s" % (prop, name, prop)},
 }
 json.dump(out, open(os.path.join(dst, "meta.json"), "w"), indent=1)
 print("stored", dst)
